@@ -1,14 +1,17 @@
 // Driver for C03 (the OP never redirects an authorization response or error to an
 // unregistered URI). Two case kinds:
-//   IValidate – direct calls of op.ValidateAuthReqRedirectURI (volume);
-//   IHistory  – Authorize / Login / Callback histories over HTTP (recorder) against
-//               both routers of the shared fixture.
+//
+//	IValidate – direct calls of op.ValidateAuthReqRedirectURI (volume);
+//	IHistory  – Authorize / Login / Callback histories over HTTP (recorder) against
+//	            both routers of the shared fixture.
+//
 // doublestar.Match, HTTPLoopbackOrLocalhost, url.Parse/String and html/template's
 // URL filter are recorded per case as oracle tables.
 package main
 
 import (
 	"bytes"
+	"encoding/json"
 	"fmt"
 	"html"
 	"html/template"
@@ -18,8 +21,10 @@ import (
 	"regexp"
 	"sort"
 	"strings"
+	"time"
 
 	"github.com/bmatcuk/doublestar/v4"
+	jose "github.com/go-jose/go-jose/v4"
 
 	"verifharness/drv"
 	"verifharness/emit"
@@ -389,7 +394,9 @@ type areq struct {
 	malformed, reqobj     bool
 	prompt                int // 0 ok, 1 bad, 2 none
 	noscope, hintBad      bool
-	fault                 int // 0 none, 1 GetClientByClientID, 2 CreateAuthRequest
+	host                  string // Request.Host ("" = op.example.com)
+	hintIss               string // "" = no signed hint; else a hint really signed for this issuer is sent
+	fault                 int    // 0 none, 1 GetClientByClientID, 2 CreateAuthRequest
 }
 
 func (q areq) term() string {
@@ -427,7 +434,9 @@ func (q areq) values() url.Values {
 	if !q.noscope {
 		v.Set("scope", "openid profile")
 	}
-	if q.hintBad {
+	if q.hintIss != "" {
+		v.Set("id_token_hint", signHint(q.hintIss))
+	} else if q.hintBad {
 		v.Set("id_token_hint", "aaa.bbb.ccc")
 	}
 	return v
@@ -499,13 +508,41 @@ func observe(resp *opfix.Resp, newID, prefix string) string {
 }
 
 type session struct {
-	reqobj  bool
-	clients []*refstore.Client
-	store   *refstore.Store
-	f       *opfix.Fixture
-	ids     []string
+	reqobj              bool
+	clients             []*refstore.Client
+	store               *refstore.Store
+	f                   *opfix.Fixture
+	ids                 []string
 	outs, opTerms, uris []string
-	human   []map[string]any
+	human               []map[string]any
+}
+
+// signHint: an ID token really signed with the provider's key for issuer iss.
+func signHint(iss string) string {
+	sk := opfix.DefaultSigning()
+	signer, err := jose.NewSigner(jose.SigningKey{Algorithm: sk.Alg, Key: &jose.JSONWebKey{Key: sk.Priv, KeyID: sk.KID}}, (&jose.SignerOptions{}).WithType("JWT"))
+	if err != nil {
+		panic(err)
+	}
+	now := time.Now()
+	b, _ := json.Marshal(map[string]any{"iss": iss, "sub": "alice", "aud": []string{"c0"}, "azp": "c0",
+		"iat": now.Add(-time.Hour).Unix(), "exp": now.Add(time.Hour).Unix()})
+	jws, err := signer.Sign(b)
+	if err != nil {
+		panic(err)
+	}
+	t, _ := jws.CompactSerialize()
+	return t
+}
+
+// dynamicIssuer sessions derive the issuer from Request.Host (op.IssuerFromHost)
+var dynamicIssuer bool
+
+func hostOf(q areq) string {
+	if q.host == "" {
+		return "op.example.com"
+	}
+	return q.host
 }
 
 func newSession(reqobj bool, clients []*refstore.Client) *session {
@@ -514,7 +551,13 @@ func newSession(reqobj bool, clients []*refstore.Client) *session {
 		store.Clients[c.ID] = c
 	}
 	store.Users["alice"] = &refstore.User{Subject: "alice", Name: "Alice"}
-	f, err := opfix.New(store, opfix.Options{NoReqObj: !reqobj})
+	var f *opfix.Fixture
+	var err error
+	if dynamicIssuer {
+		f, err = opfix.NewWithIssuer(store, opfix.Options{NoReqObj: !reqobj}, op.IssuerFromHost(""))
+	} else {
+		f, err = opfix.New(store, opfix.Options{NoReqObj: !reqobj})
+	}
 	if err != nil {
 		fmt.Fprintln(os.Stderr, "fixture:", err)
 		os.Exit(2)
@@ -534,7 +577,7 @@ func (s *session) step(h hop) {
 			before[id] = true
 		}
 		store.FaultMethod = []string{"", "GetClientByClientID", "CreateAuthRequest"}[h.q.fault]
-		resp := f.Get(h.router, "/authorize", h.q.values())
+		resp := f.GetAt(h.router, hostOf(h.q), "", "/authorize", h.q.values())
 		store.FaultMethod = ""
 		newID, prefix := "", ""
 		var fresh []string
@@ -576,7 +619,7 @@ func (s *session) step(h hop) {
 			}
 		}
 		store.FaultMethod = []string{"", "AuthRequestByID", "GetClientByClientID", "SaveAuthCode"}[h.fault]
-		resp := f.Get(h.router, "/authorize/callback", q)
+		resp := f.GetAt(h.router, hostOf(h.q), "", "/authorize/callback", q)
 		store.FaultMethod = ""
 		s.outs = append(s.outs, observe(resp, "", ""))
 		s.human = append(s.human, map[string]any{"op": "callback", "router": h.router.String(), "k": h.k, "fault": h.fault, "status": resp.Status, "location": resp.Header.Get("Location"), "body": trunc(resp.Body)})
@@ -623,7 +666,10 @@ func genHistory(r drv.Rand, w *emit.Writer) {
 	}
 	reqobj := r.Bool()
 	var ops []hop
+	dynamicIssuer = r.Chance(1, 3)
+	dyn := dynamicIssuer
 	s := newSession(reqobj, clients)
+	dynamicIssuer = false
 	do := func(h hop) { ops = append(ops, h); s.step(h) }
 	nflows := 1 + r.IntN(2)
 	var muts []string
@@ -663,6 +709,14 @@ func genHistory(r drv.Rand, w *emit.Writer) {
 				q.uri, mut = "", "nouri"
 			}
 		}
+		if dyn { // several hosts of one provider instance; hints signed for one host presented at another
+			q.host = drv.Pick(r, []string{"a.example.com", "b.example.com"})
+			if r.Chance(1, 2) && !q.hintBad {
+				q.hintIss = "https://" + drv.Pick(r, []string{"a.example.com", "b.example.com"})
+				q.hintBad = q.hintIss != "https://"+q.host
+				mut += "+signedhint"
+			}
+		}
 		router := pickRouter(r)
 		nb := len(s.ids)
 		do(hop{kind: 0, router: router, q: q})
@@ -687,7 +741,7 @@ func genHistory(r drv.Rand, w *emit.Writer) {
 			do(hop{kind: 2, router: pickRouter(r), k: r.IntN(len(s.ids) + 1)})
 		}
 	}
-	tags := []string{"kind=history", fmt.Sprintf("clients=%d", nc), fmt.Sprintf("reqobj=%v", reqobj)}
+	tags := []string{"kind=history", fmt.Sprintf("clients=%d", nc), fmt.Sprintf("reqobj=%v", reqobj), fmt.Sprintf("dynissuer=%v", dyn)}
 	seen := map[string]bool{}
 	for _, m := range muts {
 		t := m
